@@ -413,6 +413,12 @@ def oracle(case, res):
     chk("rmul", {x: a * p for x, p in m1.items()})
     N = sum(p * m2[x] for x, p in m1.items() if x in m2)
     chk("and", {x: p * m2[x] / N for x, p in m1.items() if x in m2} if N > 0 else {}, defined=N > 0)
+    if N > 0 and isinstance(res["and"], list) and "and" not in bad:
+        try:
+            if sorted(eid(e) for e, _ in res["and"]) != sorted(x for x in m1 if x in m2):
+                bad["and"] = "conjunction is not supported on the common support"
+        except KeyError:
+            pass
     ex = res["expectation"]
     wantx = sum(g[x] * p for x, p in m1.items())
     if not isinstance(ex, list) or not close(vlib.frac(ex), wantx, scale=8 * max(1, mass1)):
@@ -598,6 +604,11 @@ def run(ctx):
                         k, v = log[j]
                         draws.append((vlib.frac(v), 0) if k == "u" else (F(0), int(v)))
             draws_of[i] = draws
+            kerr = [v["error"] for _, v in res["kern_items"] if isinstance(v, dict)]
+            if kerr:
+                viol("C11:construct:raises:" + kerr[0].split(":")[0], i,
+                     {"error": kerr[0], "what": "constructing a kernel distribution raises"}, True)
+                continue
             terms.append(case_term(case, res, draws))
             meta.append(i)
         except KeyError as ex:
@@ -774,11 +785,14 @@ def run(ctx):
         if problems:
             why = oracle(case, res)
             detail = {"mirror_differences": problems, "impl": res}
-            hit = [op for op in why if op in problems or op.split("-")[0] in problems]
             if why:
                 op = sorted(why)[0]
                 detail["failing_clause"] = why
-                viol("C11:%s:%s" % (op, why[op].split(" raises ")[0][:80]), i, detail, True)
+                if " raises " in why[op]:
+                    sig = "C11:%s:raises:%s" % (op, why[op].split(" raises ")[1].split(":")[0].split(" ")[0])
+                else:
+                    sig = "C11:%s:%s" % (op, why[op][:80])
+                viol(sig, i, detail, True)
             else:
                 op = sorted(problems)[0]
                 detail["correspondence"] = "model/Dist.v (theorems props/C11.v) and msdm differ on %s" % ", ".join(sorted(problems))
